@@ -7,7 +7,7 @@
 // Input (stdin), one JSON case per line:
 //   {"id":n, "op":name, "args":[V...], "fn":CL, "subs":[{"keys":[V...],"val":CL}...]}
 //   V as in cmd/c05 (no wrappers);  CL = [name, V?] names a closure of the small library below
-// Output: {"id":n, "out":"ok"|"tlatype"|"panic"|"hang", "val":R, "detail":string}
+// Output: {"id":n, "out":"ok"|"tlatype"|"panic"|"hang", "val":R, "detail":string, "args_rep":[R...]}
 package main
 
 import (
@@ -39,10 +39,11 @@ type kase struct {
 }
 
 type result struct {
-	ID     int         `json:"id"`
-	Out    string      `json:"out"`
-	Val    interface{} `json:"val,omitempty"`
-	Detail string      `json:"detail,omitempty"`
+	ID     int           `json:"id"`
+	Out    string        `json:"out"`
+	Val    interface{}   `json:"val,omitempty"`
+	Detail string        `json:"detail,omitempty"`
+	Args   []interface{} `json:"args_rep,omitempty"` // the arguments as the runtime holds them (iteration order)
 }
 
 func build(raw json.RawMessage) tla.Value {
@@ -198,11 +199,7 @@ func body1(cl []json.RawMessage) func(tla.Value) tla.Value {
 	return func(x tla.Value) tla.Value { return b([]tla.Value{x}) }
 }
 
-func call(k kase) tla.Value {
-	a := make([]tla.Value, len(k.Args))
-	for i, r := range k.Args {
-		a[i] = build(r)
-	}
+func call(k kase, a []tla.Value) tla.Value {
 	switch k.Op {
 	case "Assert":
 		return tla.ModuleAssert(a[0], a[1])
@@ -355,7 +352,12 @@ func runCase(k kase) (res result) {
 			res.Val = nil
 		}
 	}()
-	v := call(k)
+	a := make([]tla.Value, len(k.Args))
+	for i, r := range k.Args {
+		a[i] = build(r)
+		res.Args = append(res.Args, dump(a[i]))
+	}
+	v := call(k, a)
 	res.Out, res.Val = "ok", dump(v)
 	return
 }
